@@ -86,7 +86,21 @@ func runProperty(def *propertyDef, tier, repo, root, only, replay, tags string) 
 	start := time.Now()
 	r := &Run{Property: def.id, Tier: tier, Root: root, start: start, only: only, extra: map[string]interface{}{}}
 	if replay != "" {
+		// replay: re-check exactly the obligations listed in a violations file of an earlier run
 		r.extra["replay_of"] = replay
+		r.onlyKeys = map[string]bool{}
+		if b, err := os.ReadFile(replay); err == nil {
+			var obs []Obligation
+			if json.Unmarshal(b, &obs) == nil {
+				for _, o := range obs {
+					r.onlyKeys[o.Key] = true
+				}
+			}
+		}
+		if len(r.onlyKeys) == 0 {
+			fmt.Printf("%s.LOAD replay file %s lists no obligations\n", def.id, replay)
+			return 1
+		}
 	}
 	fullSSABodies = tier == "thorough"
 	prog, err := Load(repo, tags)
